@@ -210,6 +210,8 @@ func genC13(p *Pkg) (map[string]string, error) {
 		{"objectGoReflect._put: drops the cache entry after a successful store", "objectGoReflect", "_put", callsFn("delete")},
 		{"copyReflectValueWrapper: re-points the wrapper through setReflectValue", "", "copyReflectValueWrapper", callsFn("setReflectValue")},
 		{"objectGoArrayReflect.swap: moves the cached wrappers with the elements", "objectGoArrayReflect", "swap", callsFn("setReflectValue")},
+		{"mapObject.export: consults the identity cache on entry", "mapObject", "export", callsFn("get")},
+		{"setObject.export: consults the identity cache on entry", "setObject", "export", callsFn("get")},
 		{"baseObject.export: caches before exporting the children", "baseObject", "export", callsFn("put")},
 		{"arrayObject.export: caches before exporting the children", "arrayObject", "export", callsFn("put")},
 	} {
